@@ -26,7 +26,12 @@ def sh(cmd, **kw):
 
 
 def main(argv):
+    if argv[0] == '--revalidate':
+        d0 = os.path.abspath(argv[1])
+        prop, label = os.path.basename(d0).split('_', 1)
+        argv = [prop, label, d0 + '/patch.diff', d0 + '/demo.py', d0 + '/notes.md'] + argv[2:]
     prop, label, patch, demo, notes = argv[:5]
+    patch, demo, notes = (os.path.abspath(x) for x in (patch, demo, notes))
     rest = argv[5:]
     checks = [prop]
     tier = 'quick'
@@ -95,10 +100,13 @@ def finish(meta, prop, label, patch, demo, notes, keep):
         return 1
     out = f'/verif/seeded/{prop}_{label}'
     os.makedirs(out, exist_ok=True)
-    shutil.copy(patch, os.path.join(out, 'patch.diff'))
-    shutil.copy(demo, os.path.join(out, 'demo.py'))
+    def cp(src, dst):
+        if os.path.abspath(src) != os.path.abspath(dst):
+            shutil.copy(src, dst)
+    cp(patch, os.path.join(out, 'patch.diff'))
+    cp(demo, os.path.join(out, 'demo.py'))
     if os.path.exists(notes):
-        shutil.copy(notes, os.path.join(out, 'notes.md'))
+        cp(notes, os.path.join(out, 'notes.md'))
         meta['needs_to_manifest'] = open(notes).read()[:1500]
     meta['breaks_property'] = prop
     with open(os.path.join(out, 'meta.json'), 'w') as f:
